@@ -21,7 +21,7 @@ Definition boundary (t : ltok) (rest : bytes) : Prop :=
   | LId _ | LWord _ _ | LFun _ _ => head_is (fun d => ident_rune d = false) rest
   | LPunct _ [c] => head_is (fun d => lookup_kw [c; d] keyword_table = None /\ guard1 c d = true) rest
   | LPunct _ _ => True
-  | LStr _ => True
+  | LStr _ | LRaw _ => True
   | LNum _ => head_is (fun d => num_follow d = true) rest
   | LDur _ _ => head_is (fun d => is_value_rune d = false) rest
   end.
@@ -36,8 +36,79 @@ Qed.
 Lemma boundary_space t sp r : is_space_b sp = true -> boundary t (sp :: r).
 Proof.
   intro H. destruct (space_facts3 sp H) as [B1 [B2 [B3 B4]]].
-  destruct t as [n|ty w|ty w|v|ty w|ds|ds u]; cbn [boundary head_is]; try exact B1; try exact B2; try exact B3; try exact I.
+  destruct t as [n|ty w|ty w|v|ty w|ds|ds u|v]; cbn [boundary head_is]; try exact B1; try exact B2; try exact B3; try exact I.
   destruct w as [|c [|d w']]; try exact I. cbn [head_is]. split; [apply kw_no_space; exact H|apply B4].
+Qed.
+
+(** * separators: white space and `#` comments (each running to a newline) *)
+Fixpoint sep_scan (in_comment : bool) (s : bytes) : bool :=
+  match s with
+  | [] => negb in_comment
+  | c :: t => if in_comment then (if bz c =? 10 then sep_scan false t else sep_scan true t)
+              else if is_space_b c then sep_scan false t
+              else if byte_eqb c "#"%byte then sep_scan true t else false
+  end.
+Definition is_sep (ws : bytes) : bool := sep_scan false ws.
+
+Lemma spaces_sep ws : forallb is_space_b ws = true -> is_sep ws = true.
+Proof. unfold is_sep. induction ws as [|c t IH]; intro H; [reflexivity|]. cbn in H. apply andb_true_iff in H. destruct H as [Hc Ht]. cbn. rewrite Hc. apply IH. exact Ht. Qed.
+
+(** inside a comment: it ends at the first newline, and what follows is again a separator *)
+Lemma comment_split ws : sep_scan true ws = true -> exists post, (length post < length ws)%nat /\ sep_scan false post = true /\ forall s, skip_comment (ws ++ s) = post ++ s.
+Proof.
+  induction ws as [|c t IH]; intro H; [discriminate|]. cbn [sep_scan] in H.
+  destruct (bz c =? 10) eqn:E.
+  - exists t. split; [cbn; lia|]. split; [exact H|]. intro s. cbn [app skip_comment]. rewrite E. reflexivity.
+  - destruct (IH H) as [post [Hl [Hp Hs]]]. exists post. split; [cbn; lia|]. split; [exact Hp|]. intro s. cbn [app skip_comment]. rewrite E. apply Hs.
+Qed.
+
+Lemma hash_facts : in_alphabet "#"%byte = true /\ is_space_b "#"%byte = false.
+Proof. split; reflexivity. Qed.
+
+Lemma skip_sep_gen n : forall ws, (length ws <= n)%nat -> is_sep ws = true -> forall fuel s acc, (length (ws ++ s) < fuel)%nat ->
+  exists fuel', (length s < fuel')%nat /\ lex_loop fuel (ws ++ s) acc = lex_loop fuel' s acc.
+Proof.
+  induction n as [|n IH]; intros ws Hl Hsep fuel s acc Hf.
+  - destruct ws; [|cbn in Hl; lia]. exists fuel. split; [exact Hf|reflexivity].
+  - destruct ws as [|c t]; [exists fuel; split; [exact Hf|reflexivity]|].
+    unfold is_sep in Hsep. cbn [sep_scan] in Hsep. destruct fuel as [|f]; [cbn in Hf; lia|].
+    destruct (is_space_b c) eqn:Es.
+    + cbn [app lex_loop]. rewrite (space_in_alphabet c Es). cbn [negb]. rewrite Es.
+      apply (IH t); [cbn in Hl; lia|exact Hsep|cbn in Hf; lia].
+    + destruct (byte_eqb c "#"%byte) eqn:Eh; [|discriminate]. apply byte_eqb_eq in Eh. subst c.
+      destruct (comment_split t Hsep) as [post [Hlp [Hp Hsk]]].
+      cbn [app lex_loop]. change (in_alphabet "#"%byte) with true. change (is_space_b "#"%byte) with false. change (byte_eqb "#"%byte "#"%byte) with true. cbn [negb].
+      rewrite Hsk. apply (IH post); [cbn in Hl; lia|exact Hp|]. cbn [length app] in Hf. rewrite app_length in *. lia.
+Qed.
+
+Lemma skip_sep ws fuel s acc : is_sep ws = true -> (length (ws ++ s) < fuel)%nat ->
+  exists fuel', (length s < fuel')%nat /\ lex_loop fuel (ws ++ s) acc = lex_loop fuel' s acc.
+Proof. intros H Hf. apply (skip_sep_gen (length ws) ws (le_n _) H fuel s acc Hf). Qed.
+
+Lemma skip_wsc_sep_gen n : forall ws, (length ws <= n)%nat -> is_sep ws = true -> forall fuel d r, (length ws < fuel)%nat -> keep_char d = true ->
+  skip_ws_comments fuel (ws ++ d :: r) = d :: r.
+Proof.
+  induction n as [|n IH]; intros ws Hl Hsep fuel d r Hf Hd; (destruct fuel as [|f]; [lia|]).
+  - destruct ws; [|cbn in Hl; lia]. destruct (keep_char_facts d Hd) as [K1 K2]. cbn [app skip_ws_comments]. rewrite K1, K2. reflexivity.
+  - destruct ws as [|c t]; [destruct (keep_char_facts d Hd) as [K1 K2]; cbn [app skip_ws_comments]; rewrite K1, K2; reflexivity|].
+    unfold is_sep in Hsep. cbn [sep_scan] in Hsep. destruct (is_space_b c) eqn:Es.
+    + cbn [app skip_ws_comments]. rewrite Es. apply (IH t); [cbn in Hl; lia|exact Hsep|cbn in Hf; lia|exact Hd].
+    + destruct (byte_eqb c "#"%byte) eqn:Eh; [|discriminate].
+      destruct (comment_split t Hsep) as [post [Hlp [Hp Hsk]]].
+      cbn [app skip_ws_comments]. rewrite Es, Eh. rewrite Hsk. apply (IH post); [cbn in Hl; lia|exact Hp|cbn in Hf; lia|exact Hd].
+Qed.
+
+Lemma kw_no_hash : forallb (fun kv => match fst kv with [_; d] => negb (byte_eqb d "#"%byte) | _ => true end) keyword_table = true.
+Proof. vm_compute. reflexivity. Qed.
+
+Lemma boundary_hash t r : boundary t ("#"%byte :: r).
+Proof.
+  destruct t as [n|ty w|ty w|v|ty w|ds|ds u|v]; cbn [boundary head_is]; try reflexivity; try exact I.
+  destruct w as [|c [|d w']]; try exact I. cbn [head_is]. split.
+  - destruct (lookup_kw [c; "#"%byte] keyword_table) as [ty'|] eqn:E; [|reflexivity].
+    apply lookup_in in E. pose proof kw_no_hash as G. rewrite forallb_forall in G. specialize (G _ E). cbn in G. discriminate G.
+  - unfold guard1. change (byte_eqb "#"%byte "/"%byte) with false. change (byte_eqb "#"%byte "*"%byte) with false.
+    change (is_digit_b "#"%byte) with false. change (byte_eqb "#"%byte "-"%byte) with false. cbn. rewrite !andb_false_r. reflexivity.
 Qed.
 
 (** * the step lemmas, with an arbitrary continuation *)
@@ -140,7 +211,7 @@ Proof.
 Qed.
 
 Lemma fun_step_g w ty ws d r f acc : is_valid_label w = true -> lookup_kw w keyword_table = Some ty -> is_function ty = true ->
-  forallb is_space_b ws = true -> keep_char d = true -> (ws = [] -> ident_rune d = false) ->
+  is_sep ws = true -> keep_char d = true -> (ws = [] -> ident_rune d = false) ->
   lex_loop (S f) (w ++ ws ++ d :: r) acc = lex_loop f (d :: r) (acc ++ [(ty, w)]).
 Proof.
   intros Hw E Ef Hws Hd Htight. unfold is_valid_label in Hw. destruct w as [|c t]; [discriminate|].
@@ -149,10 +220,12 @@ Proof.
   cbn [app lex_loop]. rewrite H1, H2, H3, H4, H5, H6, H7, H8, H9, H10. cbn [negb andb]. rewrite Hc.
   change (c :: t ++ ws ++ d :: r) with ((c :: t) ++ (ws ++ d :: r)).
   assert (Hhead : match ws ++ d :: r with [] => True | b :: _ => ident_rune b = false end).
-  { destruct ws as [|sp ws']; [apply Htight; reflexivity|]. cbn in Hws. apply andb_true_iff in Hws. destruct Hws as [Hs _]. apply space_not_ident. exact Hs. }
+  { destruct ws as [|sp ws']; [apply Htight; reflexivity|]. unfold is_sep in Hws. cbn [sep_scan] in Hws. cbn [app].
+    destruct (is_space_b sp) eqn:Es; [apply space_not_ident; exact Es|]. destruct (byte_eqb sp "#"%byte) eqn:Eh; [|discriminate].
+    apply byte_eqb_eq in Eh. subst sp. reflexivity. }
   rewrite (span_stop ident_rune (c :: t) (ws ++ d :: r) Hall Hhead).
   rewrite E, Ef. cbv zeta.
-  rewrite (skip_wsc_spaces ws); [|exact Hws|rewrite app_length; cbn; lia|exact Hd].
+  rewrite (skip_wsc_sep_gen (length ws) ws (le_n _) Hws); [|rewrite app_length; cbn; lia|exact Hd].
   unfold keep_char in Hd. rewrite Hd. reflexivity.
 Qed.
 
@@ -160,19 +233,20 @@ Qed.
 Fixpoint seps_ok (l : list (ltok * bytes)) : Prop :=
   match l with
   | [] => True
-  | (t, ws) :: r => forallb is_space_b ws = true /\ (ws = [] -> boundary t (layout r)) /\ seps_ok r
+  | (t, ws) :: r => is_sep ws = true /\ (ws = [] -> boundary t (layout r)) /\ seps_ok r
   end.
 
 Lemma seps_spaced l : Forall (fun x => all_space (snd x)) l -> seps_ok l.
 Proof.
   induction l as [|[t ws] r IH]; intro H; [exact I|]. inversion H as [|? ? [Hne Hs] Hr]; subst. cbn [snd] in *.
-  cbn [seps_ok]. split; [exact Hs|]. split; [intro E; congruence|apply IH; exact Hr].
+  cbn [seps_ok]. split; [apply spaces_sep; exact Hs|]. split; [intro E; congruence|apply IH; exact Hr].
 Qed.
 
-Lemma boundary_rest t ws rest : forallb is_space_b ws = true -> (ws = [] -> boundary t rest) -> boundary t (ws ++ rest).
+Lemma boundary_rest t ws rest : is_sep ws = true -> (ws = [] -> boundary t rest) -> boundary t (ws ++ rest).
 Proof.
-  intros Hs Hb. destruct ws as [|sp ws']; [apply Hb; reflexivity|]. cbn in Hs. apply andb_true_iff in Hs. destruct Hs as [Hs _].
-  cbn [app]. apply boundary_space. exact Hs.
+  intros Hs Hb. destruct ws as [|sp ws']; [apply Hb; reflexivity|]. unfold is_sep in Hs. cbn [sep_scan] in Hs. cbn [app].
+  destruct (is_space_b sp) eqn:Es; [apply boundary_space; exact Es|]. destruct (byte_eqb sp "#"%byte) eqn:Eh; [|discriminate].
+  apply byte_eqb_eq in Eh. subst sp. apply boundary_hash.
 Qed.
 
 Lemma lex_tight_gen l : forall fuel acc, Forall (fun x => wf_ltok (fst x)) l -> seps_ok l -> fun_ok l -> (length (layout l) < fuel)%nat ->
@@ -186,9 +260,9 @@ Proof.
     cbn [layout] in *. cbn [map fst].
     assert (Hcont : forall f' acc', (length (ws ++ layout r) < f')%nat ->
               lex_loop f' (ws ++ layout r) acc' = LexOk (acc' ++ map (fun p => lres (fst p)) r)).
-    { intros f' acc' Hf'. destruct (skip_spaces ws f' (layout r) acc') as [f'' [Hlt ->]]; [exact Hws|exact Hf'|]. apply IH; assumption. }
+    { intros f' acc' Hf'. destruct (skip_sep ws f' (layout r) acc' Hws Hf') as [f'' [Hlt ->]]. apply IH; assumption. }
     pose proof (ltext_len t Ht) as Hlen. rewrite app_length in Hf.
-    destruct t as [n|ty w|ty w|v|ty w|ds|ds u]; cbn [wf_ltok ltext lres boundary] in *.
+    destruct t as [n|ty w|ty w|v|ty w|ds|ds u|v]; cbn [wf_ltok ltext lres boundary] in *.
     + destruct Ht as [Hv Hk]. rewrite (word_step_g n _ f acc Hv Hbd), Hk. rewrite Hcont; [|lia]. rewrite <- app_assoc. reflexivity.
     + destruct Ht as [Hv [Hk Hnf]]. rewrite (word_step_g w _ f acc Hv Hbd), Hk, Hnf. rewrite Hcont; [|lia]. rewrite <- app_assoc. reflexivity.
     + destruct w as [|c [|d [|e w']]]; try contradiction; destruct Ht as [Hc Hk]; cbn [app].
@@ -206,8 +280,19 @@ Proof.
       rewrite <- app_assoc. reflexivity.
     + rewrite (num_step_g ds _ f acc Ht Hbd); [|lia]. rewrite Hcont; [|lia]. rewrite <- app_assoc. reflexivity.
     + destruct Ht as [Hd [Hnz [Hl Hu]]]. rewrite (dur_step_g ds u _ f acc Hd Hnz Hl Hu Hbd). rewrite Hcont; [|rewrite !app_length in *; lia]. rewrite <- app_assoc. reflexivity.
+    + cbn [app]. rewrite <- app_assoc. cbn [app]. rewrite (raw_step v _ f acc Ht).
+      rewrite Hcont; [|cbn [app length] in *; rewrite !app_length in *; cbn [length] in *; lia]. rewrite <- app_assoc. reflexivity.
 Qed.
+
+
 
 Theorem lex_layout_tight_lemma l : Forall (fun x => wf_ltok (fst x)) l -> seps_ok l -> fun_ok l ->
   lex (layout l) = LexOk (map (fun p => lres (fst p)) l).
 Proof. intros H Hs Hf. unfold lex. apply (lex_tight_gen l _ [] H Hs Hf). lia. Qed.
+
+(** the token sequence depends on the tokens only: not on the separators (white space, comments) and not on the quoting style of a
+    string ("..." with escapes or a raw string; both carry the same content) *)
+Corollary lex_layout_content l1 l2 :
+  Forall (fun x => wf_ltok (fst x)) l1 -> Forall (fun x => wf_ltok (fst x)) l2 -> seps_ok l1 -> seps_ok l2 -> fun_ok l1 -> fun_ok l2 ->
+  map (fun p => lres (fst p)) l1 = map (fun p => lres (fst p)) l2 -> lex (layout l1) = lex (layout l2).
+Proof. intros W1 W2 S1 S2 F1 F2 E. rewrite (lex_layout_tight_lemma l1 W1 S1 F1), (lex_layout_tight_lemma l2 W2 S2 F2), E. reflexivity. Qed.
